@@ -8,7 +8,9 @@ TRUSTED = ["u128 reference arithmetic in the harness (mulmod)"]
 
 def overlay(tier):
     return [{"src": "u1k_cell.rs", "dest": "src/verif_u1k_cell.rs", "mod_in": "src/lib.rs",
-             "mod_name": "verif_u1k", "params": {}}]
+             "mod_name": "verif_u1k", "params": {}},
+            {"src": "u1k_optsum.rs", "dest": "src/verif_u1k_optsum.rs", "mod_in": "src/opt.rs",
+             "mod_name": "verif_u1k_opt", "params": {}}]
 
 
 def harnesses(tier, seed):
@@ -24,6 +26,9 @@ def harnesses(tier, seed):
     hs.append({"name": MOD + "u1k_wrapping_pow_u8", "function": "CellType::wrapping_pow (u8 instance)",
                "clause": "pow(b,0) == 1 and pow(b,e) == pow(b,e-1)*b (mod 256)", "properties": ["C14"],
                "bounded_by": "width 8 only", "complete_over": "all 65536 (base, exponent) pairs", "timeout": t})
+    hs.append({"name": "opt::verif_u1k_opt::u1k_geometric_sum_u8", "function": "opt::wrapping_geometric_sum (u8 instance)",
+               "clause": "S(m,0) == 0 and S(m,n) == 1 + m*S(m,n-1) (mod 256): the sum of the first n powers of m", "properties": ["C14"],
+               "bounded_by": "width 8 only (all widths: Verus unit u10_optloop)", "complete_over": "all 65536 (multiplier, count) pairs", "timeout": t})
     for w in (8, 16, 32, 64):
         hs.append({"name": MOD + "u1k_conv_u%d" % w,
                    "function": "CellType::{into_u64, into_i64, from_u64, from_u8, into_u8, from_i16, try_into_i16} for u%d" % w,
